@@ -16,12 +16,11 @@ import vlib
 THEOREMS = [
     "csv_codec_roundtrip", "csv_reader_roundtrip", "csv_header_drops_first_record", "csv_file_roundtrip",
     "table_roundtrip_partial", "table_roundtrip_typed",
-    "null_cell_unsound", "null_cell_int_error", "empty_string_unsound", "zero_interval_unsound",
+    "table_roundtrip_full_unsound", "null_cell_old_writer_unsound", "null_cell_regression", "empty_string_unsound", "zero_interval_unsound",
     "escape_option_regression", "blob_column_regression", "header_regression",
 ]
 
 WHY_SIG = {
-    "null-cell": ("csv:null-cell", "NULL is exported as the four letters NULL and imported as the string 'NULL' (or a parse error in a non-string column)"),
     "empty-string": ("csv:empty-string", "the empty string is exported as an empty field and imported as NULL (push_str: empty text = NULL)"),
     "empty-text": ("csv:empty-interval", "the zero interval prints as the empty text and is imported as NULL"),
     "cell-text": ("csv:cell-text-roundtrip", "a cell whose Display text does not parse back to the value (the C19 findings: timestamp with sub-second part or BC year < -9999, blob with backslash/quote, interval with sub-second part)"),
